@@ -79,6 +79,7 @@ type KnownFinding struct {
 
 var (
 	verifDir = "/verif"
+	outDir   = "" // evidence, replays and scratch files (SYMGO_OUT; defaults to verifDir)
 	repoDir  = "/repo"
 )
 
@@ -100,6 +101,10 @@ func main() {
 	}
 	if v := os.Getenv("SYMGO_VERIF"); v != "" {
 		verifDir = v
+	}
+	outDir = verifDir
+	if v := os.Getenv("SYMGO_OUT"); v != "" {
+		outDir = v
 	}
 	if pf := os.Getenv("SYMGO_PROF"); pf != "" {
 		f, _ := os.Create(pf)
@@ -196,7 +201,7 @@ func runReplay(file string) int {
 		fmt.Fprintln(os.Stderr, "error: go list:", err)
 		return 2
 	}
-	workDir := filepath.Join(verifDir, ".work", "replay-"+sanitize(filepath.Base(file)))
+	workDir := filepath.Join(outDir, ".work", "replay-"+sanitize(filepath.Base(file)))
 	os.MkdirAll(workDir, 0o755)
 	defer os.RemoveAll(workDir)
 	abs, _ := filepath.Abs(file)
@@ -442,10 +447,10 @@ func runCheck(prop, tier, only string, trace bool, workers int, noReplay bool, s
 	}
 
 	// ----- native replay of counterexamples -----
-	workDir := filepath.Join(verifDir, ".work", prop+"-"+tier)
+	workDir := filepath.Join(outDir, ".work", prop+"-"+tier)
 	os.RemoveAll(workDir)
 	os.MkdirAll(workDir, 0o755)
-	replayDir := filepath.Join(verifDir, "replays", prop)
+	replayDir := filepath.Join(outDir, "replays", prop)
 	os.MkdirAll(replayDir, 0o755)
 	if old, _ := filepath.Glob(filepath.Join(replayDir, tier+"-*.json")); only == "" {
 		for _, f := range old {
@@ -637,7 +642,7 @@ func orInt64(v, d int64) int64 {
 // nativeReplay compiles the harness package natively (go test -overlay) with
 // a generated driver test and runs every replay file in replayFiles' directory.
 func nativeReplay(prop string, spec *PropSpec, pkgDir, pkgName, workDir string, overlayPaths map[string]string, glob string) (map[string]string, string) {
-	return nativeReplayDir(prop, spec, pkgDir, pkgName, workDir, overlayPaths, filepath.Join(verifDir, "replays", prop), glob)
+	return nativeReplayDir(prop, spec, pkgDir, pkgName, workDir, overlayPaths, filepath.Join(outDir, "replays", prop), glob)
 }
 
 func nativeReplayDir(prop string, spec *PropSpec, pkgDir, pkgName, workDir string, overlayPaths map[string]string, replayDir, glob string) (map[string]string, string) {
